@@ -1,8 +1,10 @@
 #!/bin/bash
-# tools/matrix.sh "<seed names>" "<properties>": run every listed check against every listed seeded tree (VERIF_REPO=/tmp/seed_X).
+# tools/matrix.sh "<seed names>" "<properties>" [prefix]: run every listed check against every listed seeded tree (VERIF_REPO=/tmp/<prefix>_X).
 cd /verif
-mkdir -p /tmp/ev_matrix
+PFX=${3:-mx}
+OUT=/tmp/ev_matrix_$PFX
+mkdir -p $OUT
 for S in $1; do for P in $2; do
-  VERIF_REPO=/tmp/seed_$S VERIF_EVIDENCE_DIR=/tmp/ev_matrix ./check $P > /tmp/ev_matrix/$S.$P.txt 2>&1; echo "$S $P exit=$?" >> /tmp/ev_matrix/summary.txt
+  VERIF_REPO=/tmp/${PFX}_$S VERIF_EVIDENCE_DIR=$OUT/ev nice -n 10 ./check $P > $OUT/$S.$P.txt 2>&1; echo "$S $P exit=$?" >> $OUT/summary.txt
 done; done
-echo "matrix done" >> /tmp/ev_matrix/summary.txt
+echo "matrix done" >> $OUT/summary.txt
